@@ -241,6 +241,17 @@ func runC10(c *core.Ctx) {
 		if s, isS := facts.ConstString(a[1]); !isS || s != "Authorization" {
 			return nil, false, false
 		}
+		// fmt.Sprintf("Bearer %s", tok) is the same value
+		if call, isCall := facts.Resolve(a[2]).(*ssa.Call); isCall && facts.CalleeName(&call.Call) == "fmt.Sprintf" {
+			if format, args, ok := errorfArgs(call); ok && format == "Bearer %s" && len(args) == 1 && args[0] != nil {
+				v := facts.Resolve(args[0])
+				if mi, isMI := v.(*ssa.MakeInterface); isMI {
+					v = facts.Resolve(mi.X)
+				}
+				return v, true, true
+			}
+			return nil, true, false
+		}
 		bo, isBo := facts.Resolve(a[2]).(*ssa.BinOp)
 		if !isBo || bo.Op != token.ADD {
 			return nil, true, false
